@@ -5,6 +5,7 @@ package stdlib
 
 import (
 	"fmt"
+	"sort"
 	"strconv"
 	"testing"
 	"time"
@@ -38,4 +39,161 @@ func TestVerifReplayTimeAttr(t *testing.T) {
 			}
 		}
 	}
+}
+
+// vrInstants: unix seconds dense around month / quarter / year / ISO-week boundaries of sample
+// years, around the DST transitions of the zone, and beyond the 32-bit range.
+func vrInstants(loc *time.Location) []int64 {
+	seen := map[int64]bool{}
+	var out []int64
+	add := func(u int64) {
+		for _, d := range []int64{-1, 0, 1} {
+			if !seen[u+d] && u+d >= 0 {
+				seen[u+d] = true
+				out = append(out, u+d)
+			}
+		}
+	}
+	for _, y := range []int{1970, 1971, 1999, 2000, 2004, 2015, 2016, 2020, 2021, 2024, 2026, 2037, 2038, 2039, 2099, 2100} {
+		for m := 1; m <= 12; m++ {
+			add(time.Date(y, time.Month(m), 1, 0, 0, 0, 0, loc).Unix())
+			add(time.Date(y, time.Month(m), 15, 12, 30, 45, 0, loc).Unix())
+		}
+		for d := 26; d <= 31; d++ { // ISO week-year boundaries
+			add(time.Date(y, time.December, d, 0, 0, 0, 0, loc).Unix())
+		}
+		for d := 1; d <= 6; d++ {
+			add(time.Date(y, time.January, d, 0, 0, 0, 0, loc).Unix())
+		}
+		// DST transitions: the offset changes between two consecutive hours
+		t0 := time.Date(y, time.January, 1, 0, 0, 0, 0, time.UTC)
+		_, prev := t0.In(loc).Zone()
+		for h := 1; h < 366*24; h++ {
+			th := t0.Add(time.Duration(h) * time.Hour)
+			if _, off := th.In(loc).Zone(); off != prev {
+				prev = off
+				for s := th.Unix() - 3600; s <= th.Unix(); s += 1800 {
+					add(s)
+				}
+			}
+		}
+	}
+	add(2147483647)
+	add(4294967296)
+	add(32503680000) // year 3000
+	return out
+}
+
+// Calendar oracle for timeformat / time / buckettime / timeattr / duration / durationformat (C18,
+// bounded): every instant of vrInstants x zones x named formats / buckets, the expected text
+// computed with package time directly from the unix second.
+func TestVerifReplayTimeCalendar(t *testing.T) {
+	fail := func(format string, a ...interface{}) {
+		fmt.Printf("REPRODUCED: "+format+"\n", a...)
+		t.Fail()
+	}
+	named := map[string]string{
+		"": time.RFC3339, "ANSIC": time.ANSIC, "UNIX": time.UnixDate, "RUBY": time.RubyDate, "RFC822": time.RFC822, "RFC822Z": time.RFC822Z,
+		"RFC1123": time.RFC1123, "RFC1123Z": time.RFC1123Z, "RFC3339": time.RFC3339, "RFC3339N": time.RFC3339Nano,
+		"NGINX": "_2/Jan/2006:15:04:05 -0700", "MONTH": "01", "MONTHNAME": "January", "MNTH": "Jan", "DAY": "02", "YEAR": "2006",
+		"HOUR": "15", "MINUTE": "04", "SECOND": "05", "TIMEZONE": "MST", "NTIMEZONE": "-0700", "NTZ": "-0700", "WEEKDAY": "Monday", "WDAY": "Mon",
+	}
+	// formats that hold date, time (to the second) and numeric offset: these must round-trip
+	roundTrip := map[string]bool{"RFC1123Z": true, "RFC3339": true, "RFC3339N": true, "RUBY": true, "NGINX": true, "": false}
+	buckets := map[string]string{"nanos": "2006-01-02 15:04:05.999999999", "seconds": "2006-01-02 15:04:05", "minutes": "2006-01-02 15:04", "hours": "2006-01-02 15",
+		"days": "2006-01-02", "months": "2006-01", "years": "2006", "s": "2006-01-02 15:04:05", "min": "2006-01-02 15:04", "hour": "2006-01-02 15", "d": "2006-01-02", "mon": "2006-01", "y": "2006"}
+	var fnames, bnames []string
+	for k := range named {
+		fnames = append(fnames, k)
+	}
+	for k := range buckets {
+		bnames = append(bnames, k)
+	}
+	sort.Strings(fnames)
+	sort.Strings(bnames)
+	n := 0
+	for _, zone := range []string{"UTC", "America/New_York", "Australia/Lord_Howe", "Asia/Kolkata", "Europe/London"} {
+		loc, err := time.LoadLocation(zone)
+		if err != nil {
+			continue
+		}
+		for _, u := range vrInstants(loc) {
+			us := strconv.FormatInt(u, 10)
+			ts := time.Unix(u, 0).In(loc)
+			for _, fname := range fnames {
+				if fname == "" {
+					continue
+				}
+				n++
+				want := ts.Format(named[fname])
+				got, p := vrEval(t, "{timeformat {0} "+fname+" \""+zone+"\"}", us)
+				if p != nil || got != want {
+					fail("{timeformat %d %s %s} = %q (panic=%v), the instant formats as %q", u, fname, zone, got, p, want)
+					return
+				}
+				if roundTrip[fname] {
+					back, p := vrEval(t, "{time {0} "+fname+" \""+zone+"\"}", want)
+					if p != nil || back != us {
+						fail("{time %q %s %s} = %q (panic=%v): timeformat printed this text for unix second %d", want, fname, zone, back, p, u)
+						return
+					}
+				}
+			}
+			// default format, lower-case format names
+			if got, p := vrEval(t, "{timeformat {0}}", us); p != nil || got != time.Unix(u, 0).UTC().Format(time.RFC3339) {
+				fail("{timeformat %d} = %q (panic=%v), want %q", u, got, p, time.Unix(u, 0).UTC().Format(time.RFC3339))
+				return
+			}
+			if got, p := vrEval(t, "{timeformat {0} rfc1123z \""+zone+"\"}", us); p != nil || got != ts.Format(time.RFC1123Z) {
+				fail("{timeformat %d rfc1123z %s} = %q (panic=%v), want %q", u, zone, got, p, ts.Format(time.RFC1123Z))
+				return
+			}
+			for _, b := range bnames {
+				n++
+				in := ts.Format(time.RFC3339)
+				want := ts.Format(buckets[b])
+				if got, p := vrEval(t, "{buckettime {0} "+b+" RFC3339 \""+zone+"\"}", in); p != nil || got != want {
+					fail("{buckettime %q %s RFC3339 %s} = %q (panic=%v), the bucket of that instant is %q", in, b, zone, got, p, want)
+					return
+				}
+			}
+			y, w := ts.ISOWeek()
+			attrs := map[string]string{"weekday": strconv.Itoa(int(ts.Weekday())), "week": strconv.Itoa(w), "yearweek": strconv.Itoa(y) + "-" + strconv.Itoa(w), "quarter": strconv.Itoa((int(ts.Month())-1)/3 + 1)}
+			for _, a := range []string{"weekday", "week", "yearweek", "quarter"} {
+				n++
+				if got, p := vrEval(t, "{timeattr {0} "+a+" \""+zone+"\"}", us); p != nil || got != attrs[a] {
+					fail("{timeattr %d %s %s} (%s) = %q (panic=%v), the calendar says %q", u, a, zone, ts.Format(time.RFC3339), got, p, attrs[a])
+					return
+				}
+			}
+		}
+	}
+	// durations: whole seconds both ways
+	for _, secs := range []int64{0, 1, 59, 60, 61, 3599, 3600, 3723, 86399, 86400, 90061, 2147483648, 9223372036, -1, -3723} {
+		d := (time.Duration(secs) * time.Second).String()
+		ss := strconv.FormatInt(secs, 10)
+		n++
+		if got, p := vrEval(t, "{durationformat {0}}", ss); p != nil || got != d {
+			fail("{durationformat %d} = %q (panic=%v), want %q", secs, got, p, d)
+			return
+		}
+		if got, p := vrEval(t, "{duration {0}}", d); p != nil || got != ss {
+			fail("{duration %q} = %q (panic=%v): durationformat printed this for %d seconds", d, got, p, secs)
+			return
+		}
+	}
+	for _, c := range [][3]string{{"{duration {0}}", "1h2m3s", "3723"}, {"{duration {0}}", "1500ms", "1"}, {"{duration {0}}", "90m", "5400"},
+		{"{duration {0}}", "soon", "<PARSE-ERROR>"}, {"{duration {0}}", "", "<PARSE-ERROR>"}, {"{duration {0}}", "15", "<PARSE-ERROR>"},
+		{"{durationformat {0}}", "1.5", "<BAD-TYPE>"}, {"{durationformat {0}}", "", "<BAD-TYPE>"}, {"{durationformat {0}}", "1h", "<BAD-TYPE>"},
+		{"{timeformat {0}}", "yesterday", "<BAD-TYPE>"}, {"{timeformat {0}}", "", "<BAD-TYPE>"}, {"{timeformat {0}}", "12.5", "<BAD-TYPE>"},
+		{"{timeattr {0} quarter}", "Q1", "<BAD-TYPE>"}, {"{timeattr {0} week}", "", "<BAD-TYPE>"},
+		{"{time {0} RFC3339}", "not a date", "<PARSE-ERROR>"}, {"{time {0} RFC3339}", "", "<PARSE-ERROR>"}, {"{time {0}}", "", "<PARSE-ERROR>"}, {"{time {0} auto}", "not a date", "<PARSE-ERROR>"},
+		{"{buckettime {0} day RFC3339}", "not a date", "<PARSE-ERROR>"}, {"{time {0} NGINX}", "2020-01-01T00:00:00Z", "<PARSE-ERROR>"}} {
+		n++
+		if got, p := vrEval(t, c[0], c[1]); p != nil || got != c[2] {
+			fail("%s with %q = %q (panic=%v), want %q", c[0], c[1], got, p, c[2])
+			return
+		}
+	}
+	t.Logf("calendar oracle: %d comparisons", n)
 }
